@@ -143,7 +143,7 @@ def one_workflow(ctx, li, spec, ops, opdecls, lang, listed, wf, bits, passthroug
     for order, text in results.items():
         if not GG.iso(text, base):
             ctx.fail(f"workflow {wf}: listing order {order} gives {summary(text)}, order {orders[0]} gives {summary(base)}",
-                {"check": "order-dependence", "error_vs_graph": text.startswith("E:") != base.startswith("E:")}, replay)
+                {"check": "order-dependence", "both_fail": text.startswith("E:") and base.startswith("E:")}, replay)
             break
     # RDF form
     try:
@@ -152,7 +152,8 @@ def one_workflow(ctx, li, spec, ops, opdecls, lang, listed, wf, bits, passthroug
         rtext = "E:X:" + type(ex).__name__
     ctx.evaluations += 1
     if not GG.iso(rtext, base):
-        ctx.fail(f"workflow {wf}: given as RDF it yields {summary(rtext)}, as an in-memory description {summary(base)}", {"check": "rdf-vs-dict"}, replay)
+        ctx.fail(f"workflow {wf}: given as RDF it yields {summary(rtext)}, as an in-memory description {summary(base)}",
+            {"check": "rdf-vs-dict", "both_fail": rtext.startswith("E:") and base.startswith("E:")}, replay)
     text, g, m = first
     if g is None:
         return
@@ -189,20 +190,25 @@ def one_workflow(ctx, li, spec, ops, opdecls, lang, listed, wf, bits, passthroug
 
 
 def no_passthrough_oracle(ctx, wf, g, m, lang, replay):
-    """with passthrough off every non-source input is its own source node fed by the producer's output node"""
+    """with passthrough off every consumption of a tool output is its OWN source node, fed by the producer's output node:
+    a resource consumed k times (by tools whose expression mentions that input) has k distinct non-operation nodes taking it as input"""
+    import re
     from transforge.namespace import TF
     srcs = set(wf["sources"])
+    uses = {}
     for out, text, ins in wf["apps"]:
-        for x in ins:
-            if x in srcs:
-                continue
-            producer = m[W.res(x)]
-            feeders = set(g.subjects(TF["from"], producer))
-            # some node that is not an operation (no tf:via) must take the producer's output as input
-            plain = [n for n in feeders if not list(g.objects(n, TF.via))]
-            if not plain:
-                ctx.fail(f"workflow {wf} without passthrough: no source node is fed by the output node of {x}", {"check": "no-passthrough-link"}, replay)
-                return
+        mentioned = set(int(t) for t in re.findall(r"(?<![A-Za-z_])(\d+)", text))
+        for i, x in enumerate(ins, start=1):
+            if x not in srcs and i in mentioned:
+                uses[x] = uses.get(x, 0) + 1
+    for x, k in uses.items():
+        producer = m[W.res(x)]
+        feeders = set(g.subjects(TF["from"], producer))
+        plain = [n for n in feeders if not list(g.objects(n, TF.via))]
+        if len(plain) < k:
+            ctx.fail(f"workflow {wf} without passthrough: the output of {x} is consumed {k} time(s) but only {len(plain)} stand-in source node(s) are fed by its node",
+                {"check": "no-passthrough-link", "consumptions": k, "linked": len(plain)}, replay)
+            return
 
 
 def final_of(wf):
